@@ -101,7 +101,8 @@ impl Sink {
 }
 
 #[derive(Clone, Copy, Debug, PartialEq, Eq, Hash)]
-pub enum GetKind { Get, At, GetMut, AtMut, GetUncheckedInRange }
+/// Index / IndexMut: typed view `as_slice()[i]` / `as_mut_slice()[i]` (the slice's own bound check); on the erased API: `at(i)` read through `as_bytes_ptr` / `at_mut(i)` through `as_bytes_mut_ptr`
+pub enum GetKind { Get, At, GetMut, AtMut, GetUncheckedInRange, Index, IndexMut }
 
 #[derive(Clone, Copy, Debug, PartialEq, Eq, Hash)]
 pub enum IterKind { Iter, IterMut, IntoIterRef, IntoIterMut }
